@@ -17,7 +17,7 @@ import sys, os, re, json, time, shutil, subprocess, fcntl, hashlib, argparse, gl
 VERIF = os.path.dirname(os.path.abspath(__file__))
 REPO = os.environ.get("VERIF_REPO", "/repo")
 HARNESS_DIR = os.path.join(VERIF, "harness")
-CACHE = os.path.join(VERIF, ".cache", "kani")
+CACHE = os.environ.get("VERIF_CACHE") or os.path.join(VERIF, ".cache", "kani")
 SCRATCH_ROOT = os.environ.get("VERIF_SCRATCH", "/var/tmp")
 SHIM_DIR = os.path.join(VERIF, "tools", "shim")
 KNOWN = os.path.join(VERIF, "known_findings.json")
@@ -128,6 +128,11 @@ class Overlay:
     def build(self, harness_files):
         shutil.rmtree(self.path, ignore_errors=True)
         shutil.rmtree(self.side, ignore_errors=True)
+        try:
+            os.unlink(os.path.join(self.side + ".td", "kani"))
+        except OSError:
+            pass
+        shutil.rmtree(self.side + ".td", ignore_errors=True)
         os.makedirs(self.side)
         subprocess.check_call(["rsync", "-a", "--delete", "--exclude", "/target", "--exclude", "/.git", REPO + "/", self.path + "/"])
         # harness files are copied into the scratch tree too, so a playback test can be appended to the copy
@@ -191,6 +196,11 @@ class Overlay:
         shutil.rmtree(self.path, ignore_errors=True)
         shutil.rmtree(self.side, ignore_errors=True)
         try:
+            os.unlink(os.path.join(self.side + ".td", "kani"))
+        except OSError:
+            pass
+        shutil.rmtree(self.side + ".td", ignore_errors=True)
+        try:
             os.unlink(self.path + ".lock")
         except OSError:
             pass
@@ -214,9 +224,24 @@ def kani_home():
     return os.path.dirname(os.path.dirname(c[-1])) if c else None
 
 
-def kani_cmd(group, extra):
+def run_target_dir(group, side):
+    """Per-invocation target directory: `<side>.td/kani` is a symlink to the group's persistent build cache (cargo locks
+    the real directory), while Kani's `result_output_dir` lands in the per-invocation directory - two checks of the same
+    group running at the same time can then never see or remove each other's result files."""
+    real = os.path.join(target_dir(group), "kani")
+    os.makedirs(real, exist_ok=True)
+    td = side + ".td"
+    os.makedirs(td, exist_ok=True)
+    link = os.path.join(td, "kani")
+    if not os.path.islink(link):
+        os.symlink(real, link)
+    return td
+
+
+def kani_cmd(group, extra, side=None):
     g = GROUPS[group]
-    return ["cargo-kani", "kani"] + g["target"] + ["--target-dir", target_dir(group), "-Z", "stubbing", "-Z", "unstable-options"] + g["flags"] + extra
+    td = run_target_dir(group, side) if side else target_dir(group)
+    return ["cargo-kani", "kani"] + g["target"] + ["--target-dir", td, "-Z", "stubbing", "-Z", "unstable-options"] + g["flags"] + extra
 
 
 def kani_env(side, mem_kb, timeout):
@@ -235,7 +260,7 @@ def run_group(ov, group, harnesses, jobs, mem_kb, tier):
     """One cargo-kani invocation for all selected harnesses of a group. Returns {fn: result dict}."""
     g = GROUPS[group]
     pkgdir = os.path.join(ov.path, g["pkg"])
-    td = target_dir(group)
+    td = run_target_dir(group, ov.side)
     resdir = os.path.join(td, "result_output_dir")
     for h in harnesses:
         try:
@@ -245,7 +270,7 @@ def run_group(ov, group, harnesses, jobs, mem_kb, tier):
     export = os.path.join(ov.side, "export.json")
     max_to = max(h.timeout for h in harnesses)
     cmd = kani_cmd(group, ["-j", str(jobs), "--output-format", "terse", "--output-into-files", "--export-json", export,
-                           "--harness-timeout", f"{max_to}s", "--exact"])
+                           "--harness-timeout", f"{max_to}s", "--exact"], ov.side)
     for h in harnesses:
         cmd += ["--harness", h.pretty]
     env = kani_env(ov.side, mem_kb, max_to)
@@ -399,7 +424,7 @@ def concrete_playback(ov, h, mem_kb):
     g = GROUPS[h.group]
     pkgdir = os.path.join(ov.path, g["pkg"])
     cmd = kani_cmd(h.group, ["-Z", "concrete-playback", "--concrete-playback=print", "--exact", "--harness", h.pretty,
-                             "--harness-timeout", f"{h.timeout}s"])
+                             "--harness-timeout", f"{h.timeout}s"], ov.side)
     env = kani_env(ov.side, mem_kb, h.timeout)
     p = subprocess.run(cmd, executable=kani_exe(), cwd=pkgdir, env=env, stdout=subprocess.PIPE, stderr=subprocess.STDOUT, text=True, errors="replace")
     out = p.stdout
@@ -646,7 +671,7 @@ def cmd_setup(args):
             if not files:
                 continue
             ov.build(files)
-            cmd = kani_cmd(gname, ["--only-codegen"])
+            cmd = kani_cmd(gname, ["--only-codegen"], ov.side)
             t0 = time.time()
             p = subprocess.run(cmd, executable=kani_exe(), cwd=os.path.join(ov.path, g["pkg"]), env=kani_env(ov.side, 0, 0), stdout=subprocess.PIPE, stderr=subprocess.STDOUT, text=True)
             log(f"setup {gname}: rc={p.returncode} {time.time() - t0:.0f}s")
